@@ -24,6 +24,14 @@ type MessageVerifFakeRequest struct {
 
 func (*MessageVerifFakeRequest) GetID() uint32 { return 66 }
 
+// a message that is not a heartbeat but has a field named Autopilot (as HIGH_LATENCY2, id 235, has)
+type MessageVerifAutopilotCarrier struct {
+	Autopilot uint8
+	Other     uint8
+}
+
+func (*MessageVerifAutopilotCarrier) GetID() uint32 { return 235 }
+
 func verifDialectKind(kind int) *dialect.Dialect {
 	switch kind {
 	case 0:
@@ -106,7 +114,7 @@ func verifHarness_C16_tick() {
 
 // S2: one incoming frame, table pre-state arbitrary for the sender: requests iff standard heartbeat from an
 // ArduPilot autopilot and (sender unknown or last request at least 30 s ago).
-// known 0: sender not in the table; 1: in the table with an arbitrary earlier time. other 0: heartbeat; 1: another message.
+// known 0: sender not in the table; 1: in the table with an arbitrary earlier time. other 0: heartbeat; 1: another message; 2: another message that has an Autopilot field too.
 func verifHarness_C16_request(known int, other int) {
 	defer verifPatchClock()()
 	d := verifDialectKind(1)
@@ -129,6 +137,9 @@ func verifHarness_C16_request(known int, other int) {
 	var msg message.Message = &minimal.MessageHeartbeat{Autopilot: minimal.MAV_AUTOPILOT(ap), Type: minimal.MAV_TYPE(verifNondetU8())}
 	if other == 1 {
 		msg = &common.MessageRequestDataStream{TargetSystem: sys}
+	}
+	if other == 2 {
+		msg = &MessageVerifAutopilotCarrier{Autopilot: ap, Other: verifNondetU8()}
 	}
 	evt := &EventFrame{Frame: &frame.V2Frame{SystemID: sys, ComponentID: comp, Message: msg}, Channel: ch}
 	key := streamNode{Channel: ch, SystemID: sys, ComponentID: comp}
@@ -252,4 +263,48 @@ func verifHarness_C16_two(same int) {
 		verifAssert(len(n.chWriteTo) == 0 && len(n.chEvent) == 0, "C16/S3/not-repeated-within-30-seconds")
 	}
 	verifReach("C16/S3")
+}
+
+// S4: the periodic cleanup and what follows it. The table holds one entry of an arbitrary age when the cleanup tick
+// arrives: the entry is dropped iff it is at least 30 s old (so a sender is asked again exactly when its last request
+// is that old), and afterwards a heartbeat from an ArduPilot sender is still processed: the reader's call returns
+// (the cleanup does not keep the table locked) and, the sender being unknown or forgotten, it is asked.
+func verifHarness_C16_cleanup() {
+	defer verifPatchClock()()
+	d := verifDialectKind(1)
+	n := verifBareNode(V2, 1, 1)
+	n.Dialect = d
+	n.StreamRequestEnable = true
+	n.StreamRequestFrequency = 4
+	n.dialectRW = &dialect.ReadWriter{Dialect: d}
+	verifAssert(n.dialectRW.Initialize() == nil, "C16/S4/dialect")
+	sr := &nodeStreamRequest{node: n}
+	verifAssert(sr.initialize() == nil, "C16/S4/enabled")
+	verifChanSink(n.chWriteTo)
+	verifChanSink(n.chEvent)
+	ch := verifBareChannel(n)
+	key := streamNode{Channel: ch, SystemID: 7, ComponentID: 8}
+	t0 := verifNondetU64()
+	verifAssume(t0 < (1<<48)*10000)
+	sr.lastRequests[key] = verifClockAt(t0)
+	blocked := verifRunUntilBlocked(func() { sr.run() })
+	verifAssert(blocked, "C16/S4/loop-waits-for-the-next-tick")
+	verifAssert(verifTimerCount() == 1 && verifTimerDuration(0) == 30*time.Second, "C16/S4/cleanup-every-30-s")
+	// the tick carries the clock reading of the instant it fired (the first reading of this run)
+	verifAssert(verifClockReadings() == 1, "C16/S4/one-tick")
+	now := verifClockReadingAt(0)
+	verifAssume(now >= t0) // earlier entries were stored from earlier clock readings
+	_, still := sr.lastRequests[key]
+	verifAssert(still == !verifBranch(now-t0 >= 30000000000), "C16/S4/entry-dropped-iff-30-s-old")
+	other := streamNode{Channel: ch, SystemID: 9, ComponentID: 1}
+	evt := &EventFrame{Frame: &frame.V2Frame{SystemID: 9, ComponentID: 1,
+		Message: &minimal.MessageHeartbeat{Autopilot: 3}}, Channel: ch}
+	blocked = verifRunUntilBlocked(func() { sr.onEventFrame(evt) })
+	verifAssert(!blocked, "C16/S4/frames-are-processed-after-a-cleanup")
+	if !blocked {
+		verifAssert(len(n.chWriteTo) == 7, "C16/S4/unknown-sender-asked-after-a-cleanup")
+		_, ok := sr.lastRequests[other]
+		verifAssert(ok, "C16/S4/sender-remembered")
+	}
+	verifReach("C16/S4")
 }
